@@ -38,14 +38,20 @@ static void body(void) {
   big = n * p > 100;
   int fam = vx_choose("fam", big ? (vx_thorough() ? 3 : 2) : (vx_thorough() ? 12 : 4));
   int scaling = vx_choose("scaling+1", 7) - 1;
-  static const int NPQ[4] = {1, 2, 3, 8}, NPT[6] = {1, 2, 3, 8, 5, 24}, NPBIG[3] = {1, 3, 8};
-  int nproc = big ? NPBIG[vx_choose("nproc", 3)] : vx_thorough() ? NPT[vx_choose("nproc", 6)] : NPQ[vx_choose("nproc", 4)];
   int off = 0, spr = 0, cc = 0;
   if (!big || vx_thorough()) {
     off = vx_choose_dev("offset", 4);                       /* 0, 1, -7.5, 1e3 (alternating sign/size per column) */
     spr = vx_choose_dev("spread", 4);                       /* as generated | all columns so that min SD = 0.02 | column 0 to SD 0.02 | all x 1e3 */
     cc = vx_choose_dev("constcol", (p < 3 ? p : 3) + 1);    /* none | first | last | middle column constant */
   }
+  /* processor count seen by the MT_ kernels; the last entry runs REAL threads (small sub-alphabet only), the others run the
+   * workers inline on the calling thread (see C01_pcacommon.h) */
+  static const int NPQ[5] = {1, 2, 3, 8, 3}, NPT[7] = {1, 2, 3, 8, 5, 24, 3}, NPBIG[3] = {1, 3, 8};
+  int real_ok = !big && off == 0 && spr == 0 && cc == 0 && fam == 0 && (scaling == 1 || vx_thorough());
+  int npi, nproc, real_threads = 0;
+  if (big) nproc = NPBIG[vx_choose("nproc", 3)];
+  else if (vx_thorough()) { npi = vx_choose("nproc", real_ok ? 7 : 6); nproc = NPT[npi]; real_threads = npi == 6; }
+  else { npi = vx_choose("nproc", real_ok ? 5 : 4); nproc = NPQ[npi]; real_threads = npi == 4; }
 
   /* ---------------------------------------------------------------- input */
   gen_data(fam, n, p, X_);
@@ -113,9 +119,10 @@ static void body(void) {
   /* ---------------------------------------------------------------- the fit under test */
   PCAMODEL *mod; NewPCAModel(&mod);
   snprintf(key, sizeof key, "nonterm|PCA|%s", cls);
-  static char TK[160]; snprintf(TK, sizeof TK, "%s", key); fit_begin(nproc, TK);
+  static char TK[160]; snprintf(TK, sizeof TK, "%s", key); fit_begin(nproc, real_threads, TK);
   PCA(mx, scaling, (size_t)a, mod, NULL); vx_transition(1);
   long iters = H_KERNEL_CALLS / 2;
+  if (nproc > 1) { snprintf(key, sizeof key, "seam|PCA|nproc=%d", nproc); vx_check(H_WORKERS == H_KERNEL_CALLS * nproc, key, "expected %ld worker launches, saw %ld", H_KERNEL_CALLS * nproc, H_WORKERS); }
   vx_log("PCA (%dx%d) scaling %d npc %d nproc %d: %ld NIPALS iterations, rank %d, kappa_npc %.3Lg, sigma1 %.3Lg\n", n, p, scaling, a, nproc, iters, rank, kappa, sv[0]);
 
   int shape_ok = (int)mod->scores->row == n && (int)mod->scores->col == a && (int)mod->loadings->row == p && (int)mod->loadings->col == a && (int)mod->varexp->size == a
@@ -151,8 +158,8 @@ static void body(void) {
   for (int k = 0; k < a; k++) for (int i = 0; i < n; i++) { ld s = 0; for (int j = 0; j < p; j++) s += RM(D, i, j) * mod->loadings->data[j][k]; if (fabs((double)s) > worst_res) worst_res = fabs((double)s); }
   vx_check(worst_res <= tol_res, "resid-orth|PCA", "(%dx%d) scaling %d npc %d nproc %d: max |R p_k| = %g, allowance %g", n, p, scaling, a, nproc, worst_res, tol_res);
 
-  /* ---- the same residual through the public accessor */
-  {
+  /* ---- the same residual through the public accessor (no MT_ kernel inside, so judged once per input: at nproc = 1) */
+  if (nproc == 1) {
     matrix *rmx; initMatrix(&rmx);
     struct grm_arg ga = {mx, mod, (size_t)a, rmx};
     int run_inproc = 1;
@@ -194,7 +201,7 @@ static void body(void) {
     snprintf(key, sizeof key, "backtransform|PCAIndVarPredictor|%s", cls);
     vx_check(db <= tol_b, key, "(%dx%d) scaling %d npc=rank %d: max |T P' * scale + mean - X| = %g, allowance %g", n, p, scaling, a, db, tol_b);
     matrix *ps; initMatrix(&ps);
-    fit_begin(nproc, "nonterm|PCAScorePredictor");
+    fit_begin(nproc, real_threads, "nonterm|PCAScorePredictor");
     PCAScorePredictor(mx, mod, (size_t)a, ps); vx_transition(1);
     double tol_s = 64 * DEPS * (a + p + 2) * (double)F, ds = hm_maxdiff(ps, mod->scores);
     snprintf(key, sizeof key, "project|PCAScorePredictor|%s", cls);
@@ -206,7 +213,7 @@ static void body(void) {
   /* ---- processor count: nproc workers give the sequential result */
   if (nproc != 1) {
     PCAMODEL *m1; NewPCAModel(&m1);
-    fit_begin(1, "nonterm|PCA|nproc=1-reference");
+    fit_begin(1, 0, "nonterm|PCA|nproc=1-reference");
     PCA(mx, scaling, (size_t)a, m1, NULL); vx_transition(1);
     double tol_n = 64 * DEPS * (n + p + 2) * (double)F;
     double d1 = hm_maxdiff(m1->scores, mod->scores), d2 = hm_maxdiff(m1->loadings, mod->loadings), d3 = hv_maxdiff(m1->varexp, mod->varexp);
